@@ -478,6 +478,45 @@ impl Prop for C10 {
 	}
 
 	fn enumerate(tier: Tier, shard: usize, nshards: usize, f: &mut dyn FnMut(Case, bool) -> bool) -> Vec<&'static str> {
+		// segments with a ':' at every offset pushed onto empty / one-segment relative paths
+		for (i, n) in gen::sweep_lengths(1100, 70_000).into_iter().enumerate() {
+			if i % nshards != shard {
+				continue;
+			}
+			let seg = format!("{}:b", "_".repeat(n));
+			for (k, (segs, ops)) in [
+				(vec![seg.clone()], vec![POp::Normalize, POp::Read]),
+				(vec![], vec![POp::Push(seg.clone()), POp::Normalize]),
+				(vec![seg.clone(), "c".to_string()], vec![POp::Pop, POp::Normalize]),
+				(vec![], vec![POp::Push(seg.clone()), POp::Push("c".into()), POp::Pop, POp::Pop]),
+				(vec!["a".to_string()], vec![POp::Pop, POp::SymPush(seg.clone()), POp::Normalize]),
+				(vec![seg.clone(), "c".to_string()], vec![POp::Normalize, POp::Pop, POp::Push("".into())]),
+			].into_iter().enumerate() {
+				let fam = if (i + k) % 2 == 0 { Fam::Uri } else { Fam::Iri };
+				let embed = match if k < 3 { 0 } else { (i + k) % 3 } {
+					0 => None,
+					1 => Some(Embed { full: false, scheme: None, authority: None, query: Some("q".into()), fragment: None }),
+					_ => Some(Embed { full: true, scheme: Some("s".into()), authority: None, query: None, fragment: None }),
+				};
+				if !f(Case { fam, embed, abs: false, segs, ops }, true) {
+					return vec![];
+				}
+			}
+		}
+		// a pushed segment of S bytes in front of a query + fragment of T bytes, for T over the usual limits up to
+		// 70 000 (scratch buffers sized for the content OR the tail, not their sum)
+		for (i, t) in gen::sweep_lengths(0, 70_000).into_iter().enumerate() {
+			for (k, sl) in [1usize, 600, 1000, 5000, 40_000].into_iter().enumerate() {
+				if (i * 5 + k) % nshards != shard {
+					continue;
+				}
+				let fam = if (i + k) % 2 == 0 { Fam::Uri } else { Fam::Iri };
+				let embed = Some(Embed { full: k % 2 == 0, scheme: if k % 2 == 0 { Some("s".into()) } else { None }, authority: if k % 3 == 0 { Some("h".into()) } else { None }, query: Some("q".repeat(t)), fragment: Some("fragment".into()) });
+				if !f(Case { fam, embed, abs: k % 3 == 0, segs: if k % 2 == 0 { vec![] } else { vec!["a".into(), "..".into()] }, ops: vec![POp::Push("s".repeat(sl)), POp::Normalize, POp::Push("t".into())] }, true) {
+					return vec![];
+				}
+			}
+		}
 		// LONG histories through one handle: k edits around every small counter width
 		{
 			let mut ks: Vec<usize> = vec![63, 64, 65, 127, 128, 129, 255, 256, 257, 511, 512, 513];
@@ -565,7 +604,7 @@ impl Prop for C10 {
 				}
 			}
 		}
-		vec!["histories of k+4 calls through one handle for k = 63..513 around powers of two (thorough: up to 4097), four op mixes", "initial paths of <= 2 segments over {a,'',.,..,a:b} x {relative, absolute} x 5 hosts (stand-alone, scheme only, bare reference, authority, empty authority) x all op sequences of length <= 2 over 12 ops"]
+		vec!["a pushed segment of 1 .. 40 000 bytes in front of a query of T bytes, T over ~900 lengths up to 70 000", "segments with a ':' at every offset 0..=1100 (and the usual limits up to 70 000) pushed, popped and normalized", "histories of k+4 calls through one handle for k = 63..513 around powers of two (thorough: up to 4097), four op mixes", "initial paths of <= 2 segments over {a,'',.,..,a:b} x {relative, absolute} x 5 hosts (stand-alone, scheme only, bare reference, authority, empty authority) x all op sequences of length <= 2 over 12 ops"]
 	}
 
 	fn floors(_tier: Tier) -> Vec<(&'static str, u64)> {
